@@ -14,6 +14,7 @@ import PermutaModel.Driver.C14
 import PermutaModel.Driver.C05
 import PermutaModel.Driver.C08
 import PermutaModel.Driver.C17
+import PermutaModel.Driver.C17Src
 import PermutaModel.Driver.C18
 import PermutaModel.Driver.C12
 import PermutaModel.Driver.C09
@@ -22,7 +23,7 @@ import PermutaModel.Driver.C04
 namespace Driver
 /-- handlers by property id: a line `Cxx op args…` is dispatched to that property's handler only -/
 def handlers : List (String × (String → List String → Option String)) :=
-  [("C01", Driver.C01.handle), ("C02", Driver.C02.handle), ("C06", Driver.C06.handle), ("C03", Driver.C03.handle), ("C07", Driver.C07.handle), ("C10", Driver.C10.handle), ("C16", Driver.C16.handle), ("C15", Driver.C15.handle), ("C20", Driver.C20.handle), ("C19", Driver.C19.handle), ("C13", Driver.C13.handle), ("C11", Driver.C11.handle), ("C14", Driver.C14.handle), ("C05", Driver.C05.handle), ("C08", Driver.C08.handle), ("C17", Driver.C17.handle), ("C18", Driver.C18.handle), ("C12", Driver.C12.handle), ("C09", Driver.C09.handle), ("C04", Driver.C04.handle)]
+  [("C01", Driver.C01.handle), ("C02", Driver.C02.handle), ("C06", Driver.C06.handle), ("C03", Driver.C03.handle), ("C07", Driver.C07.handle), ("C10", Driver.C10.handle), ("C16", Driver.C16.handle), ("C15", Driver.C15.handle), ("C20", Driver.C20.handle), ("C19", Driver.C19.handle), ("C13", Driver.C13.handle), ("C11", Driver.C11.handle), ("C14", Driver.C14.handle), ("C05", Driver.C05.handle), ("C08", Driver.C08.handle), ("C17", fun op a => (Driver.C17.handle op a).orElse fun _ => Driver.C17Src.handle op a), ("C18", Driver.C18.handle), ("C12", Driver.C12.handle), ("C09", Driver.C09.handle), ("C04", Driver.C04.handle)]
 
 def dispatch (prop op : String) (args : List String) : Option String :=
   match handlers.find? (·.1 == prop) with
